@@ -285,3 +285,145 @@ def c01_loopstate(R):
                     construct=f"{q}: path `{'; '.join(norm(s) for s in p)[:120]}` keeps stale {missing}",
                 )
     R.need(n >= 1, "no prev_* state loop found (anchor vanished)")
+
+
+# ----------------------------------------------------------------------------- C04.intshift (seed C04-rotate-mask-unguarded-width)
+
+_CONSTRUCTION_CODE = (
+    SIMP,
+    "claripy/operations.py",
+    "claripy/ast/base.py",
+    "claripy/ast/bv.py",
+    "claripy/ast/bool.py",
+    "claripy/ast/fp.py",
+    "claripy/ast/strings.py",
+)
+
+
+def _is_args_subscript(e):
+    return (
+        isinstance(e, ast.Subscript)
+        and isinstance(e.value, ast.Attribute)
+        and e.value.attr == "args"
+    )
+
+
+def _value_closure(expr, assigns):
+    """names reachable from `expr` through local assignments, and whether some `<x>.args[k]` (a raw value taken
+    out of an AST, not its width) feeds it"""
+    names, raw, seen = set(), False, set()
+    work = [expr]
+    while work:
+        e = work.pop()
+        stack = [e]
+        while stack:
+            n = stack.pop()
+            if isinstance(n, ast.Call):
+                if dotted(n.func) == "len" or (isinstance(n.func, ast.Attribute) and n.func.attr in ("size", "bit_length")):
+                    continue  # a width, bounded by what exists
+            if isinstance(n, ast.Attribute) and n.attr in ("length", "bits"):
+                continue
+            if _is_args_subscript(n):
+                raw = True
+            if isinstance(n, ast.Name):
+                names.add(n.id)
+                if n.id in assigns and n.id not in seen:
+                    seen.add(n.id)
+                    work.extend(assigns[n.id])
+            stack.extend(ast.iter_child_nodes(n))
+    return names, raw
+
+
+def _plain_names(e):
+    """names used as values in `e` (not as the object of an attribute access: `a.op != 'BVV'` says nothing
+    about the integer in a)"""
+    out, stack = set(), [e]
+    while stack:
+        n = stack.pop()
+        if isinstance(n, ast.Attribute):
+            continue
+        if isinstance(n, ast.Name):
+            out.add(n.id)
+        stack.extend(ast.iter_child_nodes(n))
+    return out
+
+
+@rule(
+    "C04.intshift",
+    props=("C04",),
+    floor=2,
+    family="GRD",
+    desc="in the construction-time code (simplifiers, operation plumbing, AST classes) a Python `<<` / `**` on "
+    "plain integers whose amount is a value taken out of an AST (`x.args[k]`) is dominated by a comparison "
+    "bounding that amount (an unbounded amount builds a 2**63-bit integer: MemoryError while *building*)",
+)
+def c04_intshift(R):
+    tree = R.tree
+    n = 0
+    for path in _CONSTRUCTION_CODE:
+        m = tree.mod(path)
+        for q, fn in m.functions.items():
+            assigns = {}
+            for st in walk_no_nested(fn):
+                if isinstance(st, ast.Assign) and len(st.targets) == 1 and isinstance(st.targets[0], ast.Name):
+                    assigns.setdefault(st.targets[0].id, []).append(st.value)
+                elif isinstance(st, ast.AugAssign) and isinstance(st.target, ast.Name):
+                    assigns.setdefault(st.target.id, []).append(st.value)
+            for b in (x for x in walk_no_nested(fn) if isinstance(x, ast.BinOp) and isinstance(x.op, (ast.LShift, ast.Pow))):
+                if isinstance(b.right, ast.Constant):
+                    continue
+                amt_names, raw = _value_closure(b.right, assigns)
+                if not raw:
+                    continue
+                left = b.left
+                if isinstance(left, ast.Name) and len(assigns.get(left.id, ())) == 1:
+                    left = assigns[left.id][0]
+                left_int = (isinstance(left, ast.Constant) and isinstance(left.value, int)) or _is_args_subscript(left)
+                if not left_int:
+                    continue  # an AST shift: builds a node, no big integer
+                n += 1
+                derived = set(amt_names)
+                for name, vals in assigns.items():
+                    for v in vals:
+                        if _value_closure(v, assigns)[0] & amt_names:
+                            derived.add(name)
+                bounded = False
+                for t, pol in guards.guards_of(b):
+                    if (
+                        isinstance(t, ast.BoolOp)
+                        and isinstance(t.op, ast.Or)
+                        and pol
+                        and all(
+                            isinstance(v, ast.Compare) and len(v.ops) == 1 and isinstance(v.ops[0], ast.Eq) and _plain_names(v.left) & derived
+                            for v in t.values
+                        )
+                    ):
+                        bounded = True  # one of finitely many values
+                    if not isinstance(t, ast.Compare) or len(t.ops) != 1:
+                        continue
+                    lnames, rnames = _plain_names(t.left), _plain_names(t.comparators[0])
+                    op = t.ops[0]
+                    if lnames & derived:
+                        if isinstance(op, ast.In) and pol and isinstance(t.comparators[0], (ast.Tuple, ast.Set, ast.List)):
+                            bounded = True
+                        if isinstance(op, ast.NotIn) and not pol and isinstance(t.comparators[0], (ast.Tuple, ast.Set, ast.List)):
+                            bounded = True
+                        if isinstance(op, (ast.Lt, ast.LtE, ast.Eq)) and pol:
+                            bounded = True
+                        if isinstance(op, (ast.Gt, ast.GtE, ast.NotEq)) and not pol:
+                            bounded = True
+                    if rnames & derived:
+                        if isinstance(op, (ast.Gt, ast.GtE, ast.Eq)) and pol:
+                            bounded = True
+                        if isinstance(op, (ast.Lt, ast.LtE, ast.NotEq)) and not pol:
+                            bounded = True
+                R.check(
+                    bounded,
+                    m,
+                    b,
+                    f"{q}: integer shift amount taken from an AST is bounded first",
+                    f"{q} evaluates `{norm(b)}` on plain integers with an amount taken out of an expression "
+                    f"({sorted(amt_names)}) and no dominating bound on it: a shift constant of 2**63 makes building "
+                    f"the expression exhaust memory instead of returning an AST or a claripy error",
+                )
+    R.need(n >= 2, "no integer shift by an AST-derived amount found (anchor vanished)")
